@@ -148,8 +148,8 @@ PROPS["C13"] = {
     "channels": [{"cmd": "run-c13"}, {"cmd": "run-json", "shards": 8}],
     "cone": r"^MISMATCH (csv|ndjson|json|harness|driver)",
     "rule": "rectangular CSV / TSV tables (2-5 columns, 2-7 rows) and one-value-per-line JSON streams, LF and CRLF, with and without final newline, examined whole and at every limit from the end of the second line to len+2; one damaged line (ragged row / cut-off or trailing-garbage JSON value) before the last line; '#' comment lines inside tables; single-line files; fixed corner cases; Csv/Tsv vs the quote-free encoding/csv model, NdJSON vs model; non-trivial = result other than text/plain",
-    "proved": "dropLastLine characterised; ndjson_only_if (>= 2 lines, every complete line parsed in full or blank, one object/array) with parsed lines being relaxed JSON values (from C09); csv_only_if on the quote-free fragment",
-    "not_proved": "forward direction (survives every cut) and quoted CSV fields: decided on the implementation",
+    "proved": "both directions on the model. Forward: the lines visited for a header `complete lines ++ incomplete line` are exactly the complete lines (the incomplete one is ignored, whatever it holds); NDJSON / CSV / TSV are recognised for >= 2 complete well-formed lines followed by any incomplete line, and every cut of a file of lines at or after the end of its second line has that shape (any limit from end of line 2 to the end of the file, LF and CRLF); whole-mode variants. Converse: ndjson_only_if (>= 2 lines, every complete line parsed in full or blank, one object/array; parsed lines are relaxed JSON values, from C09); csv_only_if",
+    "not_proved": "CSV/TSV theorems are about the quote-free hand model of encoding/csv (quoted fields are an oracle); the type is kept only if no higher-priority detector claims the header (decided on the implementation); model = Go by correspondence",
     "assumptions": COMMON_ASSUME + ["encoding/csv behaves as the quote-free hand model (validated by correspondence)", "bufio.Reader.Reset discards all state"],
 }
 
